@@ -2,7 +2,10 @@ package verifsim
 
 import (
 	"fmt"
+	"runtime"
+	"strings"
 	"sync"
+	"time"
 
 	dbm "github.com/tendermint/tm-db"
 )
@@ -21,6 +24,18 @@ type CrashDB struct {
 	Writes  int // writes counted since Arm
 	Crashed bool
 	Log     []string // kind of every counted write (for phase attribution)
+
+	// Classify (optional) is called for every counted write, on the writing goroutine; what it
+	// returns (e.g. a phase derived from the call stack) is kept in Phases, parallel to Log.
+	Classify func() string
+	Phases   []string
+	// Background: the code under test also writes from goroutines it starts itself (e.g. the
+	// clean-up of the replaced databases after AtomicSwitchToPreliminary). A crash that falls on
+	// a write of such a goroutine ends that goroutine (runtime.Goexit) instead of panicking - an
+	// un-recovered panic there would end the harness process -, and iterators opened after the
+	// crash are empty, so that delete loops of code that is still running (it is "dead": none of
+	// its writes reaches the database any more) come to an end.
+	Background bool
 }
 
 type crashSentinel struct{ at int }
@@ -32,8 +47,29 @@ func NewCrashDB(inner dbm.DB) *CrashDB { return &CrashDB{inner: inner} }
 // Arm starts counting; crashAt=0 only counts.
 func (c *CrashDB) Arm(crashAt int) {
 	c.mu.Lock()
-	c.armed, c.crashAt, c.Writes, c.Crashed, c.Log = true, crashAt, 0, false, nil
+	c.armed, c.crashAt, c.Writes, c.Crashed, c.Log, c.Phases = true, crashAt, 0, false, nil, nil
 	c.mu.Unlock()
+}
+
+// Count returns the number of writes counted since Arm and whether the crash happened.
+func (c *CrashDB) Count() (int, bool) {
+	c.mu.Lock()
+	defer c.mu.Unlock()
+	return c.Writes, c.Crashed
+}
+
+// Snapshot returns copies of the write log and of the phase log.
+func (c *CrashDB) Snapshot() (log, phases []string) {
+	c.mu.Lock()
+	defer c.mu.Unlock()
+	return append([]string{}, c.Log...), append([]string{}, c.Phases...)
+}
+
+// onTestGoroutine tells whether the caller runs below testing.tRunner (the harness goroutine).
+func onTestGoroutine() bool {
+	buf := make([]byte, 64<<10)
+	buf = buf[:runtime.Stack(buf, false)]
+	return strings.Contains(string(buf), "testing.tRunner")
 }
 
 func (c *CrashDB) Disarm() { c.mu.Lock(); c.armed = false; c.mu.Unlock() }
@@ -61,9 +97,15 @@ func (c *CrashDB) write(kind string, key []byte) bool {
 		k += fmt.Sprintf(":%q", key[:n])
 	}
 	c.Log = append(c.Log, k)
+	if c.Classify != nil {
+		c.Phases = append(c.Phases, c.Classify())
+	}
 	if c.crashAt > 0 && c.Writes == c.crashAt {
 		c.Crashed = true
 		c.mu.Unlock()
+		if c.Background && !onTestGoroutine() {
+			runtime.Goexit()
+		}
 		panic(crashSentinel{c.crashAt})
 	}
 	c.mu.Unlock()
@@ -96,8 +138,27 @@ func (c *CrashDB) DeleteSync(k []byte) error {
 	}
 	return c.inner.DeleteSync(k)
 }
-func (c *CrashDB) Iterator(s, e []byte) (dbm.Iterator, error) { return c.inner.Iterator(s, e) }
+func (c *CrashDB) dead() bool {
+	if !c.Background {
+		return false
+	}
+	c.mu.Lock()
+	defer c.mu.Unlock()
+	return c.Crashed
+}
+
+var emptyDB = dbm.NewMemDB()
+
+func (c *CrashDB) Iterator(s, e []byte) (dbm.Iterator, error) {
+	if c.dead() {
+		return emptyDB.Iterator(s, e)
+	}
+	return c.inner.Iterator(s, e)
+}
 func (c *CrashDB) ReverseIterator(s, e []byte) (dbm.Iterator, error) {
+	if c.dead() {
+		return emptyDB.ReverseIterator(s, e)
+	}
 	return c.inner.ReverseIterator(s, e)
 }
 func (c *CrashDB) Close() error             { return nil }
@@ -146,6 +207,52 @@ func (b *crashBatch) WriteSync() error {
 }
 func (b *crashBatch) Close() error { return b.b.Close() }
 
+func prefixEmpty(db dbm.DB, prefix []byte) bool {
+	if len(prefix) == 0 {
+		return true
+	}
+	end := append([]byte{}, prefix...)
+	for i := len(end) - 1; i >= 0; i-- {
+		end[i]++
+		if end[i] != 0 {
+			break
+		}
+	}
+	it, err := db.Iterator(prefix, end)
+	if err != nil {
+		return true
+	}
+	defer it.Close()
+	return !it.Valid()
+}
+
+// WaitEmptied waits until no key with one of the prefixes is left in the underlying database or
+// the database "died": the way to wait for the goroutine AtomicSwitchToPreliminary starts to
+// empty the two replaced databases (state and identity state under their old prefixes). Nothing
+// else writes at that time, so the number and order of the writes is the same in every run.
+// The time limit is a harness watchdog only (false = gave up: no verdict).
+func (c *CrashDB) WaitEmptied(prefixes ...[]byte) bool {
+	deadline := time.Now().Add(60 * time.Second)
+	for {
+		if _, crashed := c.Count(); crashed {
+			return true
+		}
+		done := true
+		for _, p := range prefixes {
+			if !prefixEmpty(c.inner, p) {
+				done = false
+			}
+		}
+		if done {
+			return true
+		}
+		if time.Now().After(deadline) {
+			return false
+		}
+		time.Sleep(100 * time.Microsecond)
+	}
+}
+
 // RunToCrash executes f and reports whether the simulated crash happened (by the sentinel
 // panic, or swallowed by a recover inside the code under test).
 func (c *CrashDB) RunToCrash(f func()) (crashed bool, other interface{}) {
@@ -165,4 +272,55 @@ func (c *CrashDB) RunToCrash(f func()) (crashed bool, other interface{}) {
 	}()
 	f()
 	return c.Crashed, nil
+}
+
+// WriteClass names the class (kind of write : kind of key) of an entry of CrashDB.Log.
+func WriteClass(logEntry string) string {
+	kind := logEntry
+	key := ""
+	if i := strings.Index(logEntry, ":"); i >= 0 {
+		kind, key = logEntry[:i], logEntry[i+1:]
+	}
+	if strings.HasPrefix(kind, "batch") {
+		kind = "batch"
+	}
+	cls := "other"
+	switch {
+	case strings.HasPrefix(key, `"\x01`):
+		cls = "stateTree"
+		if len(key) > 6 && key[5] != '\\' {
+			cls = "statePrefixKey"
+		}
+	case strings.HasPrefix(key, `"\x02`):
+		cls = "identityTree"
+	case strings.HasPrefix(key, `"\x03`):
+		cls = "preliminaryIdentityTree"
+	case strings.HasPrefix(key, `"LastBlock`):
+		cls = "head"
+	case strings.HasPrefix(key, `"id-diff`):
+		cls = "identityDiff"
+	case strings.HasPrefix(key, `"ti`):
+		cls = "txIndex"
+	case strings.HasPrefix(key, `"ri`):
+		cls = "receiptIndex"
+	case strings.HasPrefix(key, `"oti`):
+		cls = "ownTxIndex"
+	case strings.HasPrefix(key, `"bc`):
+		cls = "burntCoins"
+	case strings.HasPrefix(key, `"preliminary-`):
+		cls = "preliminaryHead"
+	case strings.HasPrefix(key, `"snpsht`):
+		cls = "snapshotDb"
+	case strings.HasPrefix(key, `"h`):
+		cls = "header-or-canonical"
+	case strings.HasPrefix(key, `"c`):
+		cls = "certificate"
+	case strings.HasPrefix(key, `"weak`):
+		cls = "weakCerts"
+	case strings.HasPrefix(key, `"last-snap`):
+		cls = "snapshotManifest"
+	case strings.HasPrefix(key, `"e`):
+		cls = "events"
+	}
+	return kind + ":" + cls
 }
